@@ -268,10 +268,24 @@ add("leaf_icao_text", "adsb_deku", L + "obl_icao_text", props=["C04", "C01"], un
     domain="all 2^24 addresses (FromStr half; Display natively)", functions=["<ICAO as FromStr>::from_str"], timeout=900)
 
 
+# C01 quick: a representative, cheap subset (every harness carries Kani's panic obligations; the
+# thorough tier takes all of them).  Every quick command has to finish well inside 15 minutes from a
+# cold cache.
+C01_QUICK = {"leaf_decode_id13", "leaf_mode_a_to_mode_c", "leaf_ac13_read", "leaf_ac12_read", "leaf_identity_read", "leaf_ident_loop",
+             "df00_b0_02", "df04_b0_20", "df05_b0_28", "df11_b0_5d", "df16_b0_80", "df19_b0_98", "df24_b0_c5", "df23_rej_b8",
+             "df17_ca5_mec0", "df17_ca5_me58", "df17_ca5_me00", "df18_cf0_me58", "df20_mb00", "df21_mb30",
+             "fc_df11_07", "fc_df11_32", "fc_df17_14", "fc_df19_32", "fc_df24_14",
+             "vel_calc_st1_p0", "vel_calc_st3_p0", "cpr_nl", "rd_single_df11", "rd_single_df24",
+             "trk_entry_m0_k0", "trk_ident_df17", "trk_vel_df17", "trk_details", "trk_non_es_df11", "trk_non_es_df24",
+             "trk_other0_df17", "trk_pos_df17_trackf_pub"}
+
+
 def select(prop, tier):
     out = []
     for o in OBL:
         if prop not in o["props"]:
+            continue
+        if prop == "C01" and tier == "quick" and o["name"] not in C01_QUICK:
             continue
         if o["tier"] in ("native", "native-bounded"):
             continue
